@@ -78,7 +78,7 @@ def replay_forged(ctx, path, weakness_relevant=lambda weak, row: True):
         if problems:
             stats["disagree"] += 1
             if cases is None:
-                cases = vlib.read_ndjson(path)
+                cases = vlib.NdjsonIndex(path)
             sig = "replay:chain-forged:%s:%s" % (kind, "panic" if r["panic"] else ("spec-accepts" if r["expect_accept"] else "spec-rejects"))
             ctx.finding(sig, "; ".join(problems[:2])[:300], {"kind": "chain-forged", "case": cases[r["idx"]], "row": r})
         else:
